@@ -564,6 +564,273 @@ theorem dealias_nodup {hdr : List Str} {row : List (Str × Str)} {st : Dict}
         rw [keys_cleanD]
         exact processRow_nodup ho (by simp [keys])
 
+/-! ## what each column of the settings sheet contributes (`dealias_and_group_headers` + `process_row`) -/
+
+/-- the scalar setting a cell feeds: `(token, text)` when its header has one token -/
+def scalarOf (ks : Keys) (hv : Str × Str) : Option (Str × Str) :=
+  match aget hv.1 ks.hk with
+  | some [t] => some (t, hv.2)
+  | _ => none
+
+/-- the custom root attribute a cell feeds: `(name, text)` for an `attribute::name` header -/
+def attrOf (ks : Keys) (hv : Str × Str) : Option (Str × Str) :=
+  match aget hv.1 ks.hk with
+  | some [a, k] => if a == S "attribute" then some (k, hv.2) else none
+  | _ => none
+
+/-- `settings["attribute"][k]` -/
+def attrGet (k : Str) (d : Dict) : Option Str :=
+  match aget (S "attribute") d with
+  | some (.d kv) => aget k kv
+  | _ => none
+
+theorem attribute_is_unmodelled_slot : isColumn (S "attribute") = true ∧ isModelled (S "attribute") = false := by
+  decide +kernel
+
+theorem aget_append_single {k k' : Str} {v : Str} (l : List (Str × Str)) :
+    aget k (l ++ [(k', v)]) = match aget k l with | some x => some x | none => if k = k' then some v else none := by
+  induction l with
+  | nil => simp [aget]
+  | cons p r ih =>
+    obtain ⟨a, b⟩ := p
+    by_cases h : k = a
+    · simp [aget, h]
+    · simp [aget, h, ih]
+
+theorem rowStep_scalar {ks : Keys} {out out' : Dict} {hv : Str × Str} (h : rowStep ks out hv = .ok out')
+    {t : Str} (ht : t ≠ S "attribute") :
+    aget t out' = match scalarOf ks hv with
+      | some (t', v) => if t = t' then some (.s v) else aget t out
+      | none => aget t out := by
+  unfold rowStep at h
+  by_cases he : hv.2.isEmpty = true
+  · simp [he] at h
+  · simp only [he, Bool.false_eq_true, if_false] at h
+    unfold scalarOf
+    cases hk : aget hv.1 ks.hk with
+    | none => simp [hk] at h
+    | some toks =>
+      simp only [hk] at h
+      match toks, h with
+      | [], h => simp at h
+      | [t'], h =>
+        simp only at h
+        split at h
+        · cases h
+        · cases h
+          simp only [aget_aset]
+      | [a, k], h =>
+        simp only at h
+        split at h
+        · unfold mergeAttr at h
+          split at h
+          · cases h; simp [aget_aset, ht]
+          · split at h
+            · cases h; simp [aget_aset, ht]
+            · cases h
+          · cases h
+        · cases h
+      | _ :: _ :: _ :: _, h => simp at h
+
+theorem rowStep_attr {ks : Keys} {out out' : Dict} {hv : Str × Str} (h : rowStep ks out hv = .ok out')
+    (k' : Str) :
+    attrGet k' out' = match attrOf ks hv with
+      | some (k, v) => if k' = k then some v else attrGet k' out
+      | none => attrGet k' out := by
+  unfold rowStep at h
+  by_cases he : hv.2.isEmpty = true
+  · simp [he] at h
+  · simp only [he, Bool.false_eq_true, if_false] at h
+    unfold attrOf
+    cases hk : aget hv.1 ks.hk with
+    | none => simp [hk] at h
+    | some toks =>
+      simp only [hk] at h
+      match toks, h with
+      | [], h => simp at h
+      | [t'], h =>
+        simp only at h
+        split at h
+        · cases h
+        · rename_i hc
+          cases h
+          have hne : ¬ S "attribute" = t' := by
+            intro heq
+            subst heq
+            simp [attribute_is_unmodelled_slot.1, attribute_is_unmodelled_slot.2] at hc
+          simp only [attrGet, aget_aset, hne, if_false]
+      | [a, k], h =>
+        simp only at h
+        split at h
+        · rename_i ha
+          have ha' : a = S "attribute" := by simpa using ha
+          unfold mergeAttr at h
+          split at h
+          · rename_i hnone
+            cases h
+            simp only [attrGet, aget_aset, if_true, hnone, aget, ha']
+            by_cases hkk : k' = k <;> simp [hkk]
+          · split at h
+            · rename_i _ kv hsome _ hknone
+              cases h
+              simp only [attrGet, aget_aset, if_true, hsome, aget_append_single, ha']
+              by_cases hkk : k' = k
+              · subst hkk; simp [hknone]
+              · simp [hkk]; cases aget k' kv <;> rfl
+            · cases h
+          · cases h
+        · cases h
+      | _ :: _ :: _ :: _, h => simp at h
+
+theorem processRow_scalar {ks : Keys} {row : List (Str × Str)} {out0 out : Dict}
+    (h : processRow ks row out0 = .ok out) {t : Str} (ht : t ≠ S "attribute") :
+    aget t out = match agetLast t (row.filterMap (scalarOf ks)) with
+      | some v => some (.s v)
+      | none => aget t out0 := by
+  induction row generalizing out0 with
+  | nil => cases h; simp [agetLast]
+  | cons hv r ih =>
+    unfold processRow at h
+    split at h
+    · rename_i out1 h1
+      rw [ih h, rowStep_scalar h1 ht]
+      cases hs : scalarOf ks hv with
+      | none => simp [List.filterMap_cons, hs]
+      | some p =>
+        obtain ⟨t', v⟩ := p
+        simp only [List.filterMap_cons, hs, agetLast]
+        cases agetLast t (List.filterMap (scalarOf ks) r) with
+        | some x => rfl
+        | none => by_cases htt : t = t' <;> simp [htt]
+    · cases h
+
+theorem processRow_attr {ks : Keys} {row : List (Str × Str)} {out0 out : Dict}
+    (h : processRow ks row out0 = .ok out) (k : Str) :
+    attrGet k out = match agetLast k (row.filterMap (attrOf ks)) with
+      | some v => some v
+      | none => attrGet k out0 := by
+  induction row generalizing out0 with
+  | nil => cases h; simp [agetLast]
+  | cons hv r ih =>
+    unfold processRow at h
+    split at h
+    · rename_i out1 h1
+      rw [ih h, rowStep_attr h1 k]
+      cases hs : attrOf ks hv with
+      | none => simp [List.filterMap_cons, hs]
+      | some p =>
+        obtain ⟨k1, v⟩ := p
+        simp only [List.filterMap_cons, hs, agetLast]
+        cases agetLast k (List.filterMap (attrOf ks) r) with
+        | some x => rfl
+        | none => by_cases hkk : k = k1 <;> simp [hkk]
+    · cases h
+
+/-- the header table: every header of the header row is read by `process_header` -/
+theorem buildKeys_hk {useDC : Bool} {hdr : List Str} {ks0 ks : Keys} (h : buildKeys useDC hdr ks0 = .ok ks)
+    (x : Str) :
+    aget x ks.hk = match aget x ks0.hk with
+      | some toks => some toks
+      | none => if x ∈ hdr then some (processHeader useDC x).2 else none := by
+  induction hdr generalizing ks0 with
+  | nil => cases h; cases aget x ks.hk <;> rfl
+  | cons h0 r ih =>
+    unfold buildKeys at h
+    split at h
+    · rename_i ks1 h1
+      rw [ih h]
+      have hstep : aget x ks1.hk = match aget x ks0.hk with
+          | some toks => some toks
+          | none => if x = h0 then some (processHeader useDC x).2 else none := by
+        unfold headerStep at h1
+        split at h1
+        · cases h1
+        · split at h1
+          · rename_i toks0 hsome
+            cases h1
+            by_cases hx : x = h0
+            · subst hx; simp [hsome]
+            · cases aget x ks0.hk <;> simp [hx]
+          · rename_i hnone
+            have key : ∀ ks', ks' = (⟨aset h0 (processHeader useDC h0).2 ks0.hk,
+                  aset (processHeader useDC h0).2 h0 ks0.tk⟩ : Keys) → aget x ks'.hk = match aget x ks0.hk with
+                | some toks => some toks
+                | none => if x = h0 then some (processHeader useDC x).2 else none := by
+              intro ks' hks'
+              subst hks'
+              simp only [aget_aset]
+              by_cases hx : x = h0
+              · subst hx; simp [hnone]
+              · simp [hx]; cases aget x ks0.hk <;> rfl
+            simp only [] at h1
+            split at h1
+            · split at h1
+              · cases h1
+              · cases h1; exact key _ rfl
+            · cases h1; exact key _ rfl
+      rw [hstep]
+      cases aget x ks0.hk with
+      | some toks => rfl
+      | none =>
+        by_cases hx : x = h0
+        · simp [hx]
+        · simp [hx]
+    · cases h
+
+theorem aget_cleanD (t : Str) (d : Dict) : aget t (cleanD d) = (aget t d).map cleanSV := by
+  induction d with
+  | nil => rfl
+  | cons p r ih =>
+    obtain ⟨k, v⟩ := p
+    by_cases h : t = k
+    · simp [cleanD, aget, h]
+    · have : aget t (cleanD r) = (aget t r).map cleanSV := ih
+      simp [cleanD, aget, h] at this ⊢
+      exact this
+
+theorem attrGet_cleanD (k : Str) (d : Dict) : attrGet k (cleanD d) = attrGet k d := by
+  unfold attrGet
+  rw [aget_cleanD]
+  cases aget (S "attribute") d with
+  | none => rfl
+  | some x => cases x <;> rfl
+
+/-- **dealias_columns** (what every column of the settings sheet contributes, for all header rows
+    and rows): when the sheet is accepted, (1) each header of the header row is read by
+    `process_header` (snake-casing, alias table, slot table — see `documented_spellings`);
+    (2) a scalar setting `t` holds the smart-quote-cleaned text of the *last* cell of row 0 whose
+    header reads as `t`, and is absent when no cell does; (3) the custom root attribute `k` holds the
+    raw text of the `attribute::k` cell, and is absent when there is none.  Nothing else enters the
+    settings dict. -/
+theorem dealias_columns {hdr : List Str} {row : List (Str × Str)} {st : Dict} (h : dealias hdr row = .ok st) :
+    ∃ ks : Keys,
+      (∀ x, aget x ks.hk =
+        if x ∈ (popIdString hdr row).1 then
+          some (processHeader ((popIdString hdr row).1.any fun h => isInfix (S "::") h) x).2 else none) ∧
+      (∀ t, t ≠ S "attribute" →
+        aget t st = (agetLast t ((popIdString hdr row).2.filterMap (scalarOf ks))).map fun v => .s (cleanVal v)) ∧
+      (∀ k, attrGet k st = agetLast k ((popIdString hdr row).2.filterMap (attrOf ks))) := by
+  simp only [dealias] at h
+  split at h
+  · cases h
+  · rename_i ks hks
+    split at h
+    · cases h
+    · rename_i out hout
+      split at h
+      · cases h
+      · cases h
+        refine ⟨ks, ?_, ?_, ?_⟩
+        · intro x
+          have := buildKeys_hk hks x
+          simpa [aget] using this
+        · intro t ht
+          rw [aget_cleanD, processRow_scalar hout ht]
+          cases agetLast t (List.filterMap (scalarOf ks) (popIdString hdr row).2) <;> simp [cleanSV, aget]
+        · intro k
+          rw [attrGet_cleanD, processRow_attr hout k]
+          cases agetLast k (List.filterMap (attrOf ks) (popIdString hdr row).2) <;> simp [attrGet, aget]
+
 /-- **model_header**: the whole modelled path (header row + row 0 of the settings sheet + arguments):
     an accepted form's header is, at every location other than the root attributes, what the table
     prescribes for the dealiased settings. -/
